@@ -2682,7 +2682,8 @@ namespace awkward {
             reinterpret_cast<std::complex<float>*>(ptr.get()),
             flatlength_so_far,
             reinterpret_cast<bool*>(contiguous_array.data()),
-            flatlength >> 1);
+            flatlength);
+          flatlength = flatlength * 2;
           break;
         case util::dtype::int8:
           err = kernel::NumpyArray_fill<int8_t, std::complex<float>>(
@@ -2690,7 +2691,8 @@ namespace awkward {
             reinterpret_cast<std::complex<float>*>(ptr.get()),
             flatlength_so_far,
             reinterpret_cast<int8_t*>(contiguous_array.data()),
-            flatlength >> 1);
+            flatlength);
+          flatlength = flatlength * 2;
           break;
         case util::dtype::int16:
           err = kernel::NumpyArray_fill<int16_t, std::complex<float>>(
@@ -2698,7 +2700,8 @@ namespace awkward {
             reinterpret_cast<std::complex<float>*>(ptr.get()),
             flatlength_so_far,
             reinterpret_cast<int16_t*>(contiguous_array.data()),
-            flatlength >> 1);
+            flatlength);
+          flatlength = flatlength * 2;
           break;
         case util::dtype::int32:
           err = kernel::NumpyArray_fill<int32_t, std::complex<float>>(
@@ -2706,7 +2709,8 @@ namespace awkward {
             reinterpret_cast<std::complex<float>*>(ptr.get()),
             flatlength_so_far,
             reinterpret_cast<int32_t*>(contiguous_array.data()),
-            flatlength >> 1);
+            flatlength);
+          flatlength = flatlength * 2;
           break;
         case util::dtype::int64:
           err = kernel::NumpyArray_fill<int64_t, std::complex<float>>(
@@ -2714,7 +2718,8 @@ namespace awkward {
             reinterpret_cast<std::complex<float>*>(ptr.get()),
             flatlength_so_far,
             reinterpret_cast<int64_t*>(contiguous_array.data()),
-            flatlength >> 1);
+            flatlength);
+          flatlength = flatlength * 2;
           break;
         case util::dtype::uint8:
           err = kernel::NumpyArray_fill<uint8_t, std::complex<float>>(
@@ -2722,7 +2727,8 @@ namespace awkward {
             reinterpret_cast<std::complex<float>*>(ptr.get()),
             flatlength_so_far,
             reinterpret_cast<uint8_t*>(contiguous_array.data()),
-            flatlength >> 1);
+            flatlength);
+          flatlength = flatlength * 2;
           break;
         case util::dtype::uint16:
           err = kernel::NumpyArray_fill<uint16_t, std::complex<float>>(
@@ -2730,7 +2736,8 @@ namespace awkward {
             reinterpret_cast<std::complex<float>*>(ptr.get()),
             flatlength_so_far,
             reinterpret_cast<uint16_t*>(contiguous_array.data()),
-            flatlength >> 1);
+            flatlength);
+          flatlength = flatlength * 2;
           break;
         case util::dtype::uint32:
           err = kernel::NumpyArray_fill<uint32_t, std::complex<float>>(
@@ -2738,7 +2745,8 @@ namespace awkward {
             reinterpret_cast<std::complex<float>*>(ptr.get()),
             flatlength_so_far,
             reinterpret_cast<uint32_t*>(contiguous_array.data()),
-            flatlength >> 1);
+            flatlength);
+          flatlength = flatlength * 2;
           break;
         case util::dtype::uint64:
           err = kernel::NumpyArray_fill<uint64_t, std::complex<float>>(
@@ -2746,7 +2754,8 @@ namespace awkward {
             reinterpret_cast<std::complex<float>*>(ptr.get()),
             flatlength_so_far,
             reinterpret_cast<uint64_t*>(contiguous_array.data()),
-            flatlength >> 1);
+            flatlength);
+          flatlength = flatlength * 2;
           break;
         case util::dtype::float16:
           throw std::runtime_error(
@@ -2759,7 +2768,8 @@ namespace awkward {
             reinterpret_cast<std::complex<float>*>(ptr.get()),
             flatlength_so_far,
             reinterpret_cast<float*>(contiguous_array.data()),
-            flatlength >> 1);
+            flatlength);
+          flatlength = flatlength * 2;
           break;
         case util::dtype::float64:
           err = kernel::NumpyArray_fill<double, std::complex<float>>(
@@ -2767,7 +2777,8 @@ namespace awkward {
             reinterpret_cast<std::complex<float>*>(ptr.get()),
             flatlength_so_far,
             reinterpret_cast<double*>(contiguous_array.data()),
-            flatlength >> 1);
+            flatlength);
+          flatlength = flatlength * 2;
           break;
         case util::dtype::complex64:
           err = kernel::NumpyArray_fill<std::complex<float>, std::complex<float>>(
@@ -2796,7 +2807,8 @@ namespace awkward {
             reinterpret_cast<std::complex<double>*>(ptr.get()),
             flatlength_so_far,
             reinterpret_cast<bool*>(contiguous_array.data()),
-            flatlength >> 1);
+            flatlength);
+          flatlength = flatlength * 2;
           break;
         case util::dtype::int8:
           err = kernel::NumpyArray_fill<int8_t, std::complex<double>>(
@@ -2804,7 +2816,8 @@ namespace awkward {
             reinterpret_cast<std::complex<double>*>(ptr.get()),
             flatlength_so_far,
             reinterpret_cast<int8_t*>(contiguous_array.data()),
-            flatlength >> 1);
+            flatlength);
+          flatlength = flatlength * 2;
           break;
         case util::dtype::int16:
           err = kernel::NumpyArray_fill<int16_t, std::complex<double>>(
@@ -2812,7 +2825,8 @@ namespace awkward {
             reinterpret_cast<std::complex<double>*>(ptr.get()),
             flatlength_so_far,
             reinterpret_cast<int16_t*>(contiguous_array.data()),
-            flatlength >> 1);
+            flatlength);
+          flatlength = flatlength * 2;
           break;
         case util::dtype::int32:
           err = kernel::NumpyArray_fill<int32_t, std::complex<double>>(
@@ -2820,7 +2834,8 @@ namespace awkward {
             reinterpret_cast<std::complex<double>*>(ptr.get()),
             flatlength_so_far,
             reinterpret_cast<int32_t*>(contiguous_array.data()),
-            flatlength >> 1);
+            flatlength);
+          flatlength = flatlength * 2;
           break;
         case util::dtype::int64:
           err = kernel::NumpyArray_fill<int64_t, std::complex<double>>(
@@ -2828,7 +2843,8 @@ namespace awkward {
             reinterpret_cast<std::complex<double>*>(ptr.get()),
             flatlength_so_far,
             reinterpret_cast<int64_t*>(contiguous_array.data()),
-            flatlength >> 1);
+            flatlength);
+          flatlength = flatlength * 2;
           break;
         case util::dtype::uint8:
           err = kernel::NumpyArray_fill<uint8_t, std::complex<double>>(
@@ -2836,7 +2852,8 @@ namespace awkward {
             reinterpret_cast<std::complex<double>*>(ptr.get()),
             flatlength_so_far,
             reinterpret_cast<uint8_t*>(contiguous_array.data()),
-            flatlength >> 1);
+            flatlength);
+          flatlength = flatlength * 2;
           break;
         case util::dtype::uint16:
           err = kernel::NumpyArray_fill<uint16_t, std::complex<double>>(
@@ -2844,7 +2861,8 @@ namespace awkward {
             reinterpret_cast<std::complex<double>*>(ptr.get()),
             flatlength_so_far,
             reinterpret_cast<uint16_t*>(contiguous_array.data()),
-            flatlength >> 1);
+            flatlength);
+          flatlength = flatlength * 2;
           break;
         case util::dtype::uint32:
           err = kernel::NumpyArray_fill<uint32_t, std::complex<double>>(
@@ -2852,7 +2870,8 @@ namespace awkward {
             reinterpret_cast<std::complex<double>*>(ptr.get()),
             flatlength_so_far,
             reinterpret_cast<uint32_t*>(contiguous_array.data()),
-            flatlength >> 1);
+            flatlength);
+          flatlength = flatlength * 2;
           break;
         case util::dtype::uint64:
           err = kernel::NumpyArray_fill<uint64_t, std::complex<double>>(
@@ -2860,7 +2879,8 @@ namespace awkward {
             reinterpret_cast<std::complex<double>*>(ptr.get()),
             flatlength_so_far,
             reinterpret_cast<uint64_t*>(contiguous_array.data()),
-            flatlength >> 1);
+            flatlength);
+          flatlength = flatlength * 2;
           break;
         case util::dtype::float16:
           throw std::runtime_error(
@@ -2873,7 +2893,8 @@ namespace awkward {
             reinterpret_cast<std::complex<double>*>(ptr.get()),
             flatlength_so_far,
             reinterpret_cast<float*>(contiguous_array.data()),
-            flatlength >> 1);
+            flatlength);
+          flatlength = flatlength * 2;
           break;
         case util::dtype::float64:
           err = kernel::NumpyArray_fill<double, std::complex<double>>(
@@ -2881,7 +2902,8 @@ namespace awkward {
             reinterpret_cast<std::complex<double>*>(ptr.get()),
             flatlength_so_far,
             reinterpret_cast<double*>(contiguous_array.data()),
-            flatlength >> 1);
+            flatlength);
+          flatlength = flatlength * 2;
           break;
         case util::dtype::complex64:
           err = kernel::NumpyArray_fill<std::complex<float>, std::complex<double>>(
